@@ -71,13 +71,32 @@ def run_streams(streams, seed, dump=False, render=False, extra_args=None):
     return recs, hangs
 
 
+def ref_cost(u):
+    """number of one-per-name selections the exhaustive reference enumerates"""
+    per = {}
+    for s in u["sols"]:
+        per[s["name"]] = per.get(s["name"], 0) + 1
+    n = 1
+    for v in per.values():
+        n *= v + 1
+    return n
+
+
+REF_LIMIT = 300000
+
+
 def oracle_ref(recs):
-    """solvable / greedy / explicit-first per distinct case"""
+    """solvable / greedy / explicit-first per distinct case (cases too large for the
+    exhaustive reference get solvable = None)"""
     lines, keys = [], {}
+    big = {}
     for r in recs:
         k = case_key(r["case"])
         r["key"] = k
-        if k in keys:
+        if k in keys or k in big:
+            continue
+        if ref_cost(r["case"]["u"]) > REF_LIMIT:
+            big[k] = {"solvable": None, "greedy": None, "first": None}
             continue
         keys[k] = r
         lines.append("ref " + k + " " + vlib.toks(vlib.tok_universe(r["case"]["u"]), vlib.tok_problem(r["case"]["p"])))
@@ -93,6 +112,7 @@ def oracle_ref(recs):
                 return None
             return [int(t) for t in x.split()[1:]]
         ref[k] = {"solvable": a == "1", "greedy": pl(b), "first": pl(c)}
+    ref.update(big)
     return ref
 
 
